@@ -92,6 +92,15 @@ def generate(seed: int, tier: str = "quick") -> dict:
             else ("all" if isinstance(npm, float) else npm)
     if not deferred:
         params["check_nans"] = rng.random() < 0.5
+    if params.get("check_nans") and not spec.time_ordered and rng.random() < 0.35:
+        # entirely missing features / samples: the sanitiser's masks are computed from the dask data
+        for k in ([("D0", "N0")] if fam == "single" else [("X0", "NX0"), ("Y0", "NY0")]):
+            d0 = descs[k[0]]
+            if gen.n_features_total(d0) >= 5 and d0.get("multiindex") is None:
+                d0["nan_features"] = 1
+                descs[k[1]]["nan_features"] = 1
+                if len(d0["sample"]) == 1 and rng.random() < 0.5 and fam == "single":
+                    d0["nan_samples"] = 1
     # dask's exact SVD (Whitener with alpha < 1, SparsePCA's full solver) refuses arrays chunked along both
     # dimensions; that counts as refused, not as a result, so such layouts are only drawn occasionally
     alphas = params.get("alpha", spec.fixed_alpha)
